@@ -288,3 +288,80 @@ Section Collect.
                     end
     end.
 End Collect.
+
+(* ------------------------------------------------------------------ dedup (marks), direct (sort + marks), derived *)
+
+Record mk_st := mk_mk {
+  m_tb : list (list nat);           (* transitive_bases *)
+  m_dir : list (list nat);          (* direct_bases *)
+  m_der : list (list nat);          (* direct_derived *)
+  m_marks : list nat;               (* class_::mark *)
+  m_weight : list nat;              (* class_::weight *)
+  m_cmark : nat;                    (* compiler::class_mark *)
+  m_mark : nat;                     (* the local `mark` *)
+  m_local : list nat                (* the local vector `bases` *)
+}.
+
+Definition mk_cond (k : lcond) (x : lenv) (s : mk_st) : option bool :=
+  match k with
+  | KMarkNe r => match eget r x with Some i => Some (negb (Nat.eqb (nth i (m_marks s) 0) (m_mark s))) | None => None end
+  | KMarkEq r => match eget r x with Some i => Some (Nat.eqb (nth i (m_marks s) 0) (m_mark s)) | None => None end
+  | _ => None
+  end.
+
+Definition weight_of (s : mk_st) (c : nat) : nat := nth c (m_weight s) 0.
+
+Fixpoint mk_exec (c : lstmt) (x : lenv) (s : mk_st) : option mk_st :=
+  match c with
+  | LSkip => Some s
+  | LSeq a b => match mk_exec a x s with Some s' => mk_exec b x s' | None => None end
+  | LIf k body => match mk_cond k x s with
+                  | Some true => mk_exec body x s
+                  | Some false => Some s
+                  | None => None
+                  end
+  | LForClasses body => ofor (fun i s' => mk_exec body (eset RRtc (Some i) x) s') (seq 0 (length (m_tb s))) s
+  | LFor r (LTb o) body =>
+      match eget o x with                              (* the list as it is when the loop starts *)
+      | Some k => ofor (fun i s' => mk_exec body (eset r (Some i) x) s') (nth k (m_tb s) []) s
+      | None => None
+      end
+  | LFor r (LDir o) body =>
+      match eget o x with
+      | Some k => ofor (fun i s' => mk_exec body (eset r (Some i) x) s') (nth k (m_dir s) []) s
+      | None => None
+      end
+  | LNewMark => Some (mk_mk (m_tb s) (m_dir s) (m_der s) (m_marks s) (m_weight s) (S (m_cmark s)) (S (m_cmark s)) (m_local s))
+  | LClearLocal => Some (mk_mk (m_tb s) (m_dir s) (m_der s) (m_marks s) (m_weight s) (m_cmark s) (m_mark s) [])
+  | LPushLocal y => match eget y x with
+                    | Some j => Some (mk_mk (m_tb s) (m_dir s) (m_der s) (m_marks s) (m_weight s) (m_cmark s) (m_mark s) (m_local s ++ [j]))
+                    | None => None
+                    end
+  | LSetMark r => match eget r x with
+                  | Some i => if Nat.ltb i (length (m_marks s))
+                              then Some (mk_mk (m_tb s) (m_dir s) (m_der s) (set_nth i (m_marks s) (m_mark s)) (m_weight s) (m_cmark s) (m_mark s) (m_local s))
+                              else None               (* a pointer to no class *)
+                  | None => None
+                  end
+  | LSetWeightLocal => match eget RRtc x with
+                       | Some i => Some (mk_mk (m_tb s) (m_dir s) (m_der s) (m_marks s) (set_nth i (m_weight s) (length (m_local s))) (m_cmark s) (m_mark s) (m_local s))
+                       | None => None
+                       end
+  | LSwapTbLocal => match eget RRtc x with
+                    | Some i => Some (mk_mk (set_nth i (m_tb s) (m_local s)) (m_dir s) (m_der s) (m_marks s) (m_weight s) (m_cmark s) (m_mark s) (nth i (m_tb s) []))
+                    | None => None
+                    end
+  | LSortTbByWeight => match eget RRtc x with          (* std::sort by decreasing weight, as Model.Compile sorts *)
+                       | Some i => Some (mk_mk (set_nth i (m_tb s) (sort_by_weight (weight_of s) (nth i (m_tb s) []))) (m_dir s) (m_der s) (m_marks s) (m_weight s) (m_cmark s) (m_mark s) (m_local s))
+                       | None => None
+                       end
+  | LPushDir o y => match eget o x, eget y x with
+                    | Some i, Some j => Some (mk_mk (m_tb s) (upd_nth i (m_dir s) [] (fun l => l ++ [j])) (m_der s) (m_marks s) (m_weight s) (m_cmark s) (m_mark s) (m_local s))
+                    | _, _ => None
+                    end
+  | LPushDer o y => match eget o x, eget y x with
+                    | Some i, Some j => Some (mk_mk (m_tb s) (m_dir s) (upd_nth i (m_der s) [] (fun l => l ++ [j])) (m_marks s) (m_weight s) (m_cmark s) (m_mark s) (m_local s))
+                    | _, _ => None
+                    end
+  | _ => None
+  end.
